@@ -383,7 +383,7 @@ pub fn install_quiet_panic_hook() {
     let loud = std::env::var("VERIF_LOUD").is_ok();
     std::panic::set_hook(Box::new(move |info| {
         if loud {
-            eprintln!("panic: {info}");
+            eprintln!("panic: {info}\n{}", std::backtrace::Backtrace::force_capture());
         }
         let msg = if let Some(s) = info.payload().downcast_ref::<&str>() {
             s.to_string()
